@@ -240,18 +240,22 @@ macro_rules! mk {
 }
 macro_rules! tuple_all {
     ($st:ident, $T:ty; $($i:tt)+) => {{
-        let mut pos: Vec<(String, PosDesc)> = Vec::new();
-        let v = ( $( mk!($T, $st, pos, $i), )+ );
-        let id = format!("tuple/{}", pos.len());
-        if $st.wants(&id) { run_case($st, &id, pos, vec![], &v); }
+        let id = format!("tuple/{}", [$($i),+].len());
+        if $st.wants(&id) {
+            let mut pos: Vec<(String, PosDesc)> = Vec::new();
+            let v = ( $( mk!($T, $st, pos, $i), )+ );
+            run_case($st, &id, pos, vec![], &v);
+        }
     }};
 }
 macro_rules! tuple_mixed {
     ($st:ident, $E:ty, $P:ty; [$($b:tt)*] $c:tt [$($a:tt)*]) => {{
-        let mut pos: Vec<(String, PosDesc)> = Vec::new();
-        let v = ( $( mk!($P, $st, pos, $b), )* mk!($E, $st, pos, $c), $( mk!($P, $st, pos, $a), )* );
-        let id = format!("tuple/{}", pos.len());
-        if $st.wants(&id) { run_case($st, &id, pos, vec![], &v); }
+        let id = format!("tuple/{}", [$($b,)* $c, $($a,)*].len());
+        if $st.wants(&id) {
+            let mut pos: Vec<(String, PosDesc)> = Vec::new();
+            let v = ( $( mk!($P, $st, pos, $b), )* mk!($E, $st, pos, $c), $( mk!($P, $st, pos, $a), )* );
+            run_case($st, &id, pos, vec![], &v);
+        }
     }};
 }
 macro_rules! tuple_walk {
